@@ -48,6 +48,9 @@ class MemSys(E2EWorld):
     def make_probe(self, st):
         return MemProbe(st.D.user.vfs, self.dest_path)
 
+    def rewrite_source(self, st, data):
+        st.S.user.vfs.put(core.SRC_PATH, data)
+
     def read_dest(self, st):
         return st.D.user.vfs.get(self.dest_path)
 
@@ -192,6 +195,9 @@ def configs(tier):
     # cancel requests at every point (cancel-time checksum, disposition)
     for mode, disp, cks in itertools.product(("ack", "unack"), (False, True), ("crc32", "mod")):
         add(mode=mode, closure=True, size=2 * L + 1, link="ff", cancels=1, disposition=disp, cks=cks)
+    # a refused write (after the file was created): both filestores refuse the same write call
+    add(mode="ack", nak="imm", size=2 * L + 1, link="k", K=1, kinds=("reject", "dup"), ack_limit=2, nak_limit=2)
+    add(mode="unack", closure=True, size=2 * L + 1, link="k", K=1, kinds=("reject", "dup"), check_limit=2)
     # fault handler codes other than the defaults (abandon / ignore) on the paths that declare faults
     for code in ("abandon", "ignore"):
         add(mode="unack", closure=True, size=2 * L + 1, link="k", K=1, kinds=("drop",), check_limit=1, faults_d={"FILE_CHECKSUM_FAILURE": code, "CHECK_LIMIT_REACHED": code})
